@@ -375,6 +375,71 @@ theorem confirm_ok_false_before_fix :
       confirmLoopV0 wait seqno polls = false :=
   ⟨10, 0, [{ elapsed := 0, seqno := 1, err := false }], by decide, by decide⟩
 
+/-! ### errors of the blockchain interface, cancellation -/
+
+theorem confirmLoop_all_err (wait seqno : Nat) (ps : List Poll) :
+    confirmLoop wait seqno (ps.map fun p => { p with err := true }) = false := by
+  induction ps with
+  | nil => rfl
+  | cons p ps ih => simp [confirmLoop, ih]
+
+theorem confirmLoop_cancelFrom (wait seqno : Nat) : ∀ (j : Nat) (ps : List Poll),
+    confirmLoop wait seqno (cancelFrom j ps) = confirmLoop wait seqno (ps.take j)
+  | 0, ps => by simp [cancelFrom, confirmLoop_all_err, confirmLoop]
+  | _ + 1, [] => by simp [cancelFrom]
+  | j + 1, p :: ps => by
+    simp only [cancelFrom, List.take_succ_cons, confirmLoop, confirmLoop_cancelFrom wait seqno j ps]
+
+/-- Errors of the blockchain interface propagate and nothing is fabricated: a failing `GetAccountState` or a failing
+derivation of the parameters (undecodable data of an active account) ends the send with that error before anything is
+sent; a failing `SendMessage` is returned after the one attempt; a frozen account is treated like an uninitialised one
+by v3/v4/v5 (seqno 0, state-init attached). With a context-honouring blockchain, cancellation before call k shows as
+exactly these errors — before `GetAccountState` nothing is sent, before `SendMessage` the send fails — and during the
+confirmation phase the loop can only report success on a poll served BEFORE the cancellation (it keeps polling, every
+answer an error, until the deadline: the code never looks at the context itself). -/
+theorem send_error_propagates (loop : Nat → Nat → List Poll → Bool) (v : Version) (self : Address) (n : Nat) (sc : Script) (wait : Nat) :
+    (∀ e, sc.acct = .err e → (sendV2 loop v self n sc wait).outcome = .err e ∧ (sendV2 loop v self n sc wait).sent = none)
+    ∧ (∀ st e, sc.acct = .ok st → nextMessageParams v st = .err e →
+        (sendV2 loop v self n sc wait).outcome = .err e ∧ (sendV2 loop v self n sc wait).sent = none)
+    ∧ (∀ st np, sc.acct = .ok st → nextMessageParams v st = .ok np → n ≤ maxMessages v → sc.sendErr = true →
+        (sendV2 loop v self n sc wait).outcome = .err "send" ∧
+        (sendV2 loop v self n sc wait).sent = some { destWc := toI8 self.workchain, destHash := self.hash, init := np.init, seqno := np.seqno })
+    ∧ (v.family ≠ .v1v2 → v.family ≠ .highload → nextMessageParams v .frozen = .ok { seqno := 0, init := true })
+    ∧ ((sendV2Ctx loop v self n sc wait (some 0)).sent = none ∧ ∃ e, (sendV2Ctx loop v self n sc wait (some 0)).outcome = .err e)
+    ∧ (∀ k, k ≤ 1 → (sendV2Ctx loop v self n sc wait (some k)).outcome.isOk = false)
+    ∧ (∀ k seqno, confirmLoop wait seqno (sc.cancelled (some k)).polls = confirmLoop wait seqno (sc.polls.take (k - 2))) := by
+  refine ⟨?_, ?_, ?_, ?_, ?_, ?_, ?_⟩
+  · intro e h; simp [sendV2, h]
+  · intro st e h1 h2; simp [sendV2, h1, h2]
+  · intro st np h1 h2 hn hs
+    have hfam : v.family ≠ .v1v2 := by
+      intro hf; unfold nextMessageParams at h2; simp [hf] at h2
+    simp only [sendV2, h1, h2, rawSendV2, Nat.not_lt.mpr hn, ↓reduceIte, hs]
+    cases hf : v.family <;> simp_all
+  · intro h1 h2
+    unfold nextMessageParams
+    cases hf : v.family <;> simp_all
+  · simp [sendV2Ctx, Script.cancelled, sendV2]
+  · intro k hk
+    unfold sendV2Ctx sendV2
+    cases ha : (sc.cancelled (some k)).acct with
+    | err e => simp [Outcome.isOk]
+    | panic p => simp [Outcome.isOk]
+    | ok st =>
+      simp only []
+      cases hn : nextMessageParams v st with
+      | err e => simp [Outcome.isOk]
+      | panic p => simp [Outcome.isOk]
+      | ok np =>
+        have hse : (sc.cancelled (some k)).sendErr = true := by simp [Script.cancelled, hk]
+        simp only [rawSendV2, hse]
+        split
+        · simp [Outcome.isOk]
+        · cases hf : v.family <;> simp [Outcome.isOk]
+  · intro k seqno
+    simp only [Script.cancelled]
+    exact confirmLoop_cancelFrom wait seqno (k - 2) sc.polls
+
 /-! ### mnemonic → key -/
 
 section seed
